@@ -21,7 +21,9 @@ extra = {'C13-B': ['C13', 'C16'], 'C05-B': ['C17'], 'C17-B': ['C17'], 'C02-A': [
          'C01-L': ['C01', 'C11'], 'C02-L': ['C02', 'C10'], 'C20-L': ['C20', 'C17'],
          # round 9: C01-M is the mechanism of C04-K (a child lost at spawn: C04's books); C02-M and C05-M show on a real
          # circusd that is signalled (C08's cases); C04-M lets requests in during the periodic check (C10's monitor)
-         'C01-M': ['C01', 'C04'], 'C02-M': ['C02', 'C08'], 'C05-M': ['C05', 'C08'], 'C04-M': ['C04', 'C10']}
+         'C01-M': ['C01', 'C04'], 'C02-M': ['C02', 'C08'], 'C05-M': ['C05', 'C08'], 'C04-M': ['C04', 'C10'],
+         # a hooks-only edit of the file: what reloadconfig makes of it is C12's comparison with a fresh start
+         'C14-M': ['C14', 'C12']}
 rows = []
 import concurrent.futures as cf
 
